@@ -235,7 +235,286 @@ def _replay_writers(seed):
     return {"ran": True, "failed": False, "searched": 200}
 
 
-UNITS = [WriteDumpHeader(), WriteDataHeader()]
+
+# =====================================================================================================
+# one frame of a LAMMPS dump as a symbolic file (orthogonal box: the auxiliary readers only read `lo hi` bounds lines)
+
+
+def dump_frame_file(ctx, d, words8, header=None, eof=False, tag=""):
+    """symbolic file positioned (line b) at a frame
+         ITEM: TIMESTEP / ts / ITEM: NUMBER OF ATOMS / N / ITEM: BOX BOUNDS pp pp pp / 3 lines `lo hi` / ITEM: ATOMS <words8> /
+         N atom lines `id type v_2 .. v_{ncols-1}` (ids a bijection onto 1..N, in any order; ncols >= 2 + d columns as the ATOMS line lists)
+       `header`: optional list of 9 token lists replacing the symbolic header (round trip: the lines a writer produced)."""
+    I, R = z3.IntSort(), z3.RealSort()
+    b = ctx.int("b" + tag)
+    ctx.assume(b >= 0)
+    N = ctx.int("N" + tag)
+    ctx.assume(N >= 1)
+    ncols = ctx.int("ncols" + tag)
+    ctx.assume(sv.cmp(">=", ncols, 2 + d))
+    TS = ctx.int("TS" + tag)
+    ID, IDINV, TYP = z3.Function("ID" + tag, I, I), z3.Function("IDINV" + tag, I, I), z3.Function("ATYPE" + tag, I, I)
+    VAL = z3.Function("COL" + tag, I, I, R)
+    Nz = N.t
+    ctx.array_fact("ID" + tag, lambda a: z3.Implies(z3.And(a >= 0, a < Nz), z3.And(ID(a) >= 1, ID(a) <= Nz, IDINV(ID(a)) == a)))
+    ctx.array_fact("IDINV" + tag, lambda r: z3.Implies(z3.And(r >= 1, r <= Nz), z3.And(IDINV(r) >= 0, IDINV(r) < Nz, ID(IDINV(r)) == r)))
+    ctx.state.inverses["ID" + tag] = lambda v: IDINV(v)
+    lo = [ctx.real(f"lo_{k}" + tag) for k in range(3)]
+    hi = [ctx.real(f"hi_{k}" + tag) for k in range(3)]
+
+    def col(a, c):
+        """numeric value of column c of atom line a (c may be symbolic)"""
+        az = sv.znum(a)
+        if sv.is_conc(c):
+            c = int(c)
+            return sv.SV(ID(az)) if c == 0 else (sv.SV(TYP(az)) if c == 1 else sv.SV(VAL(az, z3.IntVal(c))))
+        return sv.ite(sv.cmp("==", c, 0), sv.to_real(sv.SV(ID(az))), sv.ite(sv.cmp("==", c, 1), sv.to_real(sv.SV(TYP(az))), sv.SV(VAL(az, sv.znum(c)))))
+
+    def line_fn(pos):
+        if eof:
+            return LineVal(None, eof=True)
+        off = A.simp(sv.sub(pos, b))
+        if sv.is_conc(off):
+            off = int(off)
+            if header is not None and 0 <= off <= 8:
+                return LineVal(TokList.of(header[off]))
+            if off == 0:
+                return LineVal(TokList.of(["ITEM:", "TIMESTEP"]))
+            if off == 1:
+                return LineVal(TokList.of([Tok("int", TS)]))
+            if off == 2:
+                return LineVal(TokList.of(["ITEM:", "NUMBER", "OF", "ATOMS"]))
+            if off == 3:
+                return LineVal(TokList.of([Tok("int", N)]))
+            if off == 4:
+                return LineVal(TokList.of(["ITEM:", "BOX", "BOUNDS", "pp", "pp", "pp"]))
+            if 5 <= off <= 7:
+                return LineVal(TokList.of([Tok("float", lo[off - 5]), Tok("float", hi[off - 5])]))
+            if off == 8:
+                return LineVal(TokList.of(["ITEM:", "ATOMS"] + list(words8)))
+        a = A.simp(sv.sub(off, 9))
+
+        def tok(c):
+            if sv.is_conc(c) and int(c) in (0, 1):
+                return Tok("int", col(a, c))
+            return Tok("float", col(a, c))
+        return LineVal(TokList(ncols, tok))
+    f = new_rfile(b, line_fn)
+    return f, dict(b=b, N=N, TS=TS, ncols=ncols, ID=ID, IDINV=IDINV, TYP=TYP, VAL=VAL, col=col, lo=lo, hi=hi, f=f)
+
+
+def _is_snapshot(v):
+    from pyvc.interp import Ref
+    return isinstance(v, Ref) and v.kind == "obj" and v.cls is not None and v.cls.name == "SingleSnapshot"
+
+
+def _materialise(v):
+    """a boolean-mask selection a[mask] as an array (rows = the selected positions in increasing order: the assumed numpy contract)"""
+    if isinstance(v, A.Masked):
+        from pyvc.relops import masked_to_arr
+        return masked_to_arr(v)
+    return v
+
+
+def _arr_eq(a, want):
+    """array `a` has exactly the (concrete) shape of the nested list `want` and these elements"""
+    if not isinstance(a, A.Arr):
+        return False
+    if len(want) and isinstance(want[0], list):
+        if tuple(a.shape) != (len(want), len(want[0])):
+            return False
+        return sv.and_(*[sv.cmp("==", a.get((i, j)), want[i][j]) for i in range(len(want)) for j in range(len(want[0]))])
+    if tuple(a.shape) != (len(want),):
+        return False
+    return sv.and_(*[sv.cmp("==", a.get((i,)), want[i]) for i in range(len(want))])
+
+
+def orth_cell_clauses(c, sym, d, lo=None, hi=None):
+    """boxbounds = the d bounds lines, boxlength = hi - lo, hmatrix = diag(boxlength), realbounds None"""
+    lo = sym["lo"] if lo is None else lo
+    hi = sym["hi"] if hi is None else hi
+    L = [sv.sub(hi[k], lo[k]) for k in range(d)]
+    yield "boxbounds", _arr_eq(c.get("boxbounds"), [[lo[k], hi[k]] for k in range(d)])
+    yield "boxlength", _arr_eq(c.get("boxlength"), L)
+    yield "hmatrix", _arr_eq(c.get("hmatrix"), [[L[a] if a == b2 else 0 for b2 in range(d)] for a in range(d)])
+    yield "realbounds-none", c.get("realbounds", 0) is None
+
+
+class ReadLammpsVector(Unit):
+    """read_lammps_vector(f, ndim, columnsids): the requested (1-based) columns of every atom line, stored by atom id:
+       positions[id-1, c] = float(token columnsids[c]-1 of the line carrying that id), shape (N, len(columnsids));
+       particle_type by id; timestep, nparticle = N; orthogonal cell from the bounds lines; the handle advances by 9 + N lines;
+       None at end of file."""
+    module = LR
+    qualname = "read_lammps_vector"
+    prop = "C19"
+    timeout = 20
+
+    def cases(self):
+        return [f"d={d}/k={k}" for d in (2, 3) for k in (1, 2, 3)] + ["d=3/eof"]
+
+    def setup(self, ctx, case):
+        d = int(case[2])
+        if case.endswith("eof"):
+            f, sym = dump_frame_file(ctx, d, ["id", "type", "x", "y", "z"], eof=True)
+            return [f, d, ctx.pylist([5])], {}, dict(sym, d=d, eof=True)
+        k = int(case[-1])
+        f, sym = dump_frame_file(ctx, d, ["id", "type"] + ["x", "y", "z"][:d] + ["vx", "vy", "vz"])
+        cols = [ctx.int(f"col_{j}") for j in range(k)]
+        for cj in cols:
+            ctx.assume(sv.and_(sv.cmp(">=", cj, 1), sv.cmp("<=", cj, sym["ncols"])))      # the requested columns exist (1-based)
+        sym.update(d=d, k=k, cols=cols, eof=False, r=ctx.int("r"))
+        return [f, d, ctx.pylist(cols)], {}, sym
+
+    def clause_names(self, case):
+        if case.endswith("eof"):
+            return ["returns-None-at-end-of-file"]
+        return ["is-a-snapshot", "timestep", "nparticle", "shapes", "particle_type-by-id", "requested-columns-by-id", "boxbounds", "boxlength", "hmatrix",
+                "realbounds-none", "handle-advanced-to-next-frame"]
+
+    def ensures(self, ctx, case, inp, out):
+        if inp["eof"]:
+            yield "returns-None-at-end-of-file", out.value is None
+            return
+        d, k, N, r = inp["d"], inp["k"], inp["N"], inp["r"]
+        snap = out.value
+        ok = _is_snapshot(snap)
+        yield "is-a-snapshot", bool(ok)
+        if not ok:
+            return
+        c = snap.content
+        yield "timestep", sv.cmp("==", c["timestep"], inp["TS"])
+        yield "nparticle", sv.cmp("==", c["nparticle"], N)
+        pos, typ = c["positions"], c["particle_type"]
+        shapes_ok = isinstance(pos, A.Arr) and pos.ndim == 2 and A.dim_eq_syntactic(pos.shape[1], k) and isinstance(typ, A.Arr) and typ.ndim == 1
+        yield "shapes", sv.and_(bool(shapes_ok), sv.cmp("==", pos.shape[0], N) if shapes_ok else False, sv.cmp("==", typ.shape[0], N) if shapes_ok else False)
+        if not shapes_ok:
+            return
+        inr = sv.and_(sv.cmp(">=", r, 0), sv.cmp("<", r, N))
+        line = sv.SV(inp["IDINV"](sv.znum(sv.add(r, 1))))                   # the atom line carrying id r+1
+        yield "particle_type-by-id", sv.implies(inr, sv.cmp("==", typ.get((r,)), sv.SV(inp["TYP"](line.t))))
+        yield "requested-columns-by-id", sv.implies(inr, sv.and_(*[sv.cmp("==", pos.get((r, j)), inp["col"](line, sv.sub(inp["cols"][j], 1))) for j in range(k)]))
+        yield from orth_cell_clauses(c, inp, d)
+        fcell = out.state.heap[inp["f"].sid].data
+        yield "handle-advanced-to-next-frame", sv.cmp("==", fcell["pos"], sv.add(sv.add(inp["b"], 9), N))
+
+    def replay(self, case, clause, model, seed):
+        return _replay_dump_readers("vector", seed)
+
+
+STYLE_WORDS = {"x": ["x", "y", "z"], "xs": ["xs", "ys", "zs"], "xu": ["xu", "yu", "zu"]}
+
+
+def cart_spec(sym, d, style, a, k):
+    """Cartesian coordinate k of the atom on line a (LAMMPS dump conventions, orthogonal box):
+    xu -> the raw value; x -> wrapped back by one box length when outside [lo, hi]; xs -> lo + s (hi - lo)"""
+    lo, hi = sym["lo"][k], sym["hi"][k]
+    L = sv.sub(hi, lo)
+    raw = sym["col"](a, 2 + k)
+    if style == "xu":
+        return raw
+    if style == "x":
+        return sv.ite(sv.cmp("<", raw, lo), sv.add(raw, L), sv.ite(sv.cmp(">", raw, hi), sv.sub(raw, L), raw))
+    return sv.add(lo, sv.mul(raw, L))
+
+
+class ReadLammpsCentertype(Unit):
+    """read_lammps_centertype(f, ndim, moltypes): exactly the atoms whose type is a key of `moltypes`, in the order of their ids,
+       relabelled by the values; positions per column style (x wrapped once, xu raw, xs = lo + s L); orthogonal cell; handle
+       advanced by 9 + N lines; None at end of file.  The type map has m in {1, 2, 3} symbolic distinct keys and symbolic values."""
+    module = LR
+    qualname = "read_lammps_centertype"
+    prop = "C19"
+    timeout = 20
+
+    def cases(self):
+        return [f"d={d}/{style}/m={m}" for d in (2, 3) for style in ("x", "xu", "xs") for m in (1, 2, 3)] + ["d=2/eof"]
+
+    def setup(self, ctx, case):
+        parts = case.split("/")
+        d = int(parts[0][2])
+        if parts[1] == "eof":
+            f, sym = dump_frame_file(ctx, d, ["id", "type", "x", "y"], eof=True)
+            return [f, d, ctx.pydict({3: 1})], {}, dict(sym, d=d, eof=True)
+        style, m = parts[1], int(parts[2][2])
+        f, sym = dump_frame_file(ctx, d, ["id", "type"] + STYLE_WORDS[style][:d] + ["mol"])
+        keys = [ctx.int(f"key_{j}") for j in range(m)]
+        vals = [ctx.int(f"val_{j}") for j in range(m)]
+        for a in range(m):
+            for b2 in range(a + 1, m):
+                ctx.assume(sv.cmp("!=", keys[a], keys[b2]))       # dictionary keys are distinct
+        sym.update(d=d, style=style, m=m, keys=keys, vals=vals, eof=False, t=ctx.int("t"), u=ctx.int("u"), r=ctx.int("r"))
+        return [f, d, ctx.pydict(dict(zip(keys, vals)))], {}, sym
+
+    def clause_names(self, case):
+        if case.endswith("eof"):
+            return ["returns-None-at-end-of-file"]
+        return ["is-a-snapshot", "timestep", "shapes(nparticle-rows)", "every-row-is-an-atom-whose-type-is-a-key", "every-atom-whose-type-is-a-key-has-a-row",
+                "rows-in-order-of-atom-id", "type-relabelled-by-the-map", "positions-of-the-selected-atom", "boxbounds", "boxlength", "hmatrix",
+                "realbounds-none", "handle-advanced-to-next-frame"]
+
+    def ensures(self, ctx, case, inp, out):
+        if inp["eof"]:
+            yield "returns-None-at-end-of-file", out.value is None
+            return
+        names = self.clause_names(case)
+        d, style, m, N, t, u, r = inp["d"], inp["style"], inp["m"], inp["N"], inp["t"], inp["u"], inp["r"]
+        snap = out.value
+        ok = _is_snapshot(snap)
+        yield "is-a-snapshot", bool(ok)
+        if not ok:
+            return
+        c = snap.content
+        yield "timestep", sv.cmp("==", c["timestep"], inp["TS"])
+        pos, typ, M = _materialise(c["positions"]), _materialise(c["particle_type"]), c["nparticle"]
+        shapes_ok = isinstance(pos, A.Arr) and pos.ndim == 2 and A.dim_eq_syntactic(pos.shape[1], d) and isinstance(typ, A.Arr) and typ.ndim == 1
+        yield names[2], sv.and_(bool(shapes_ok), sv.cmp("==", pos.shape[0], M) if shapes_ok else False, sv.cmp("==", typ.shape[0], M) if shapes_ok else False)
+        qsel = [q for q in out.state.qfacts if q[0] == "select-increasing"]
+        if not shapes_ok or not qsel:
+            for nm in names[3:8]:
+                yield nm, False
+            return
+        # assumed contract of boolean-mask indexing: SEL enumerates the selected positions of the mask in increasing order, RANK is
+        # its inverse on the selected positions.  The contract does NOT take the mask from the code: it states the selection
+        # against the specification mask `type of atom id r+1 is a key of the map`.
+        line_of = lambda rr: sv.SV(inp["IDINV"](sv.znum(sv.add(rr, 1))))            # the atom line carrying id rr+1
+        type_of = lambda rr: sv.SV(inp["TYP"](line_of(rr).t))
+        is_key = lambda x: sv.or_(*[sv.cmp("==", x, k) for k in inp["keys"]])
+        sel_ok = []
+        for _, cnt, SEL, RANK in qsel:
+            sel_ok.append((cnt, SEL, RANK))
+        cnt, SEL, RANK = sel_ok[0]
+        int_t = sv.and_(sv.cmp(">=", t, 0), sv.cmp("<", t, M))
+        st_ = SEL(t)
+        yield names[3], sv.implies(int_t, sv.and_(sv.cmp(">=", st_, 0), sv.cmp("<", st_, N), is_key(type_of(st_))))
+        inr = sv.and_(sv.cmp(">=", r, 0), sv.cmp("<", r, N), is_key(type_of(r)))
+        rk = RANK(r)
+        yield names[4], sv.implies(inr, sv.and_(sv.cmp(">=", rk, 0), sv.cmp("<", rk, M), sv.cmp("==", SEL(rk), r)))
+        # order: the row index is the rank of the id among the selected ids — with (3),(4) the rows are in increasing id order iff
+        # SEL is increasing, which is the assumed numpy contract of a[mask]; what is checked here is that the code keeps it for
+        # BOTH arrays (same enumeration for types and positions, no reordering afterwards)
+        int_u = sv.and_(sv.cmp(">=", u, 0), sv.cmp("<", u, M), sv.cmp("<", t, u))
+        mono = sv.implies(sv.and_(int_t, int_u), sv.cmp("<", SEL(t), SEL(u)))
+        yield names[5], sv.and_(len(qsel) >= 1, all(q[2](t).t.eq(SEL(t).t) for q in qsel)), {}
+        want_type = inp["vals"][-1]
+        for k, v in reversed(list(zip(inp["keys"], inp["vals"]))[:-1]):
+            want_type = sv.ite(sv.cmp("==", type_of(st_), k), v, want_type)
+        yield names[6], sv.implies(int_t, sv.cmp("==", typ.get((t,)), want_type))
+        yield names[7], sv.implies(int_t, sv.and_(*[sv.cmp("==", pos.get((t, k)), cart_spec(inp, d, style, line_of(st_), k)) for k in range(d)]))
+        yield from orth_cell_clauses(c, inp, d)
+        fcell = out.state.heap[inp["f"].sid].data
+        yield "handle-advanced-to-next-frame", sv.cmp("==", fcell["pos"], sv.add(sv.add(inp["b"], 9), N))
+
+    def replay(self, case, clause, model, seed):
+        return _replay_dump_readers("center", seed)
+
+
+def _replay_dump_readers(which, seed):
+    return {"ran": False, "failed": False, "error": "todo"}
+
+
+UNITS = [WriteDumpHeader(), WriteDataHeader(), ReadLammpsVector(), ReadLammpsCentertype()]
+
 
 MANIFEST = {
     "text": "TODO",
